@@ -15,6 +15,7 @@ import Xandikos.Generated.Wellknown
 import Xandikos.Generated.TimeRange
 import Xandikos.Generated.IterChanges
 import Xandikos.Generated.Gates
+import Xandikos.Generated.Multiget
 import Xandikos.Driver.Codec
 
 open Xandikos Xandikos.Codec
@@ -93,6 +94,12 @@ def gstep (line : String) : String :=
     exc (Generated.put_refuses ((field im).map String.toList) ((field inm).map String.toList) ((field cur).map String.toList))
   | ["dg", im, cur] => exc (Generated.delete_refuses ((field im).map String.toList) ((field cur).map String.toList))
   | ["gg", inm, cur] => exc (Generated.get_not_modified ((field inm).map String.toList) ((field cur).map String.toList))
+  | "mg" :: script :: hrefs =>
+    -- `lookup`: a path resolves to itself unless it contains "missing"
+    let lk : String → Option String := fun p => if (p.splitOn "missing").length > 1 then none else some p
+    match Generated.resources_by_hrefs lk (fieldS script) (hrefs.map fieldS) with
+    | .ok rows => "=" ++ ",".intercalate (rows.map fun (h, r) => pctEncode h ++ ":" ++ optEnc r)
+    | .error (.raised cls _) => "raise:" ++ cls
   | ["match", a, b, k] => exc (Generated.match_ (fieldS a).toList (fieldS b).toList (fieldS k).toList)
   | ["collate", name, a, b, k] =>
     match Generated.collations.find? (fun r => r.1 == (fieldS name).toList) with
